@@ -10,6 +10,10 @@ sets are compared as SETS OF GEOMETRIC TRIANGLES: every vertex of every array in
 id (points closer than 1e-9 x side length are one vertex), a triangle is the sorted triple of its vertex ids.
 This is the latitude the property states for coincident vertices: ``ArrayTriangles.neighborhood`` only
 de-duplicates float vertices bitwise and may therefore list one geometric triangle several times.
+
+Case kinds: coord / arrep / shape / limits (the equilateral lattice at ordinary scale), scale / refine (tiny and huge side
+lengths, sets reached by repeated up-sampling), fan / strip / patch (irregular vertex-array meshes), hist (a derived set is
+kept while other calls are made on its parent and on other sets of the same size, then inspected).
 """
 import itertools
 import math
@@ -38,9 +42,29 @@ RULE = (
     "(shape) the same subsets x 7x7 reference-point lattice x 9 shapes, plus squares of half extents "
     "{(0.52,0.52),(0.45,0.65),(0.65,0.45)} x side centred 6% inside every vertex and (0.2,0.35) x side 6% inside every edge "
     "midpoint of every triangle (at most 9 anchor triangles per set); (limits) for_limits_and_scale menu "
-    "for both representations with the same laws. non-trivial = the set holds triangles of both orientations and at "
-    "least two that share an edge (so parity branches and de-duplication both matter); for shape cases = some "
-    "reference point lies strictly inside a triangle and some lies outside all of them"
+    "for both representations with the same laws; "
+    "(scale) every subset of at most 2 triangles and the full 3x3 window at side lengths from 1e-5 to 1e3 (without offset, with "
+    "an offset proportional to the side, with the absolute offset (2,3)): all laws one operation deep and the containment rule "
+    "for the 9 shapes on a 5x5 reference-point lattice plus the anchored squares; (refine) sets reached by repeated "
+    "up-sampling: from every set of <=2 triangles of a 2x2 window, 18 times up_sample -> for_indexes(children not strictly "
+    "outside a fixed point, decided by the reference model) -> neighborhood, in both representations, with the subdivision, "
+    "selection, neighbourhood laws and the containment rule for the 9 shapes at every level (side down to 3.8e-6); "
+    "(fan / strip / patch) irregular vertex-array meshes written directly as ArrayTriangles(indices, vertices): every open and "
+    "closed fan over every subset of an 8-point ring about a hub (integer ring, mirrored doubled ring about another hub, seeded "
+    "float ring with permuted vertex array), every non-degenerate triangle strip of 1..4 triangles whose new vertex advances by {1,2,3} with "
+    "height jitter {0,1}, every 3x3-window lattice patch whose vertices were replaced through with_vertices (integer non-affine "
+    "map, seeded affine map, seeded per-vertex jitter, seeded unrelated positions): neighbourhood (of the mesh, of its "
+    "neighbourhood and of its up-sampled mesh) = originals + the three edge-midpoint reflections of each, compared as geometric "
+    "sets, plus subdivision, selection, area and containment laws; (hist) histories inside one case, both representations: a "
+    "derived set (up_sample / neighborhood / for_indexes) is kept unread or completely read, then one of {up_sample, "
+    "neighborhood, for_indexes, containing_indices} is called on {its parent, another set with as many triangles as the parent, "
+    "another set with as many triangles as the kept set} (12 single interleavings and all 12 in a row), then all 11-13 "
+    "observables of the kept set are read in rotating order and compared bitwise with the values a twin derived from an equal "
+    "fresh parent had before the other calls (the twin is compared with the reference model, and so is the kept set after the "
+    "12-call history). non-trivial = the set holds triangles of both orientations and at "
+    "least two that share an edge (so parity branches and de-duplication both matter); for shape / scale cases = some "
+    "reference point lies strictly inside a triangle and some lies outside all of them; for refine = all levels reached with a "
+    "reference point strictly inside; for meshes = at least two triangles; hist cases always"
 )
 ASSUMPTIONS = [
     "a shape's reference point is the 2-vector (first, second) = (Point.x, Point.y) / centre of a Square / mean of the "
@@ -50,8 +74,15 @@ ASSUMPTIONS = [
     "the 3x3 window at origins of both parities reaches every local configuration of the parity-dependent child / "
     "neighbour offsets (each triangle's children and neighbours depend only on its own coordinate and flip state; "
     "subsets exercise the de-duplication and the normal/flipped partition ordering)",
-    "edge-reflected neighbour of an equilateral triangle = mirror image of the apex in the opposite edge; the "
-    "neighbourhood law is only demanded of equilateral lattice sets (affine images are only used for up_sample)",
+    "edge-reflected neighbour of an equilateral triangle = mirror image of the apex in the opposite edge; of a general "
+    "triangle (fan / strip / patch cases only) = its reflection in the midpoint of that edge (apex -> b + c - a), the congruent "
+    "triangle on the other side of the edge: this is the reading that coincides with the mirror image on the equilateral "
+    "lattice, is carried along by affine maps of a lattice (with_vertices) and needs no equilateral input",
+    "the side length is an arbitrary positive float: laws are demanded unchanged from 1e-5 to 1e3 and down to 3.8e-6 (quick) / "
+    "1.5e-8 (thorough) along refinement chains; in those cases the coincident-vertex tolerance is max(1e-9 x side, 32 ulp of "
+    "the largest coordinate), the containment margin stays 1e-6 barycentric (relative to the triangle, so scale-free)",
+    "a derived set is a value: what any observable of it returns does not depend on calls made in between on its parent or "
+    "on other sets (of the same size or not); two sets derived by the same call from equal fresh parents agree bitwise",
     "ArrayTriangles may list a geometric triangle more than once (round-off distinct vertices); only the set of "
     "distinct geometric triangles is compared, duplicates are recorded in the outcome census, not flagged",
     "reference points within 1e-6 (barycentric) of a triangle edge are undecided for that triangle and skipped",
@@ -73,9 +104,16 @@ BOUNDS = {
     "arrep: 511 subsets x 2 origins x {int64, int32, float32 identity map, int64 skew map} + 10 read kinds x "
     "{with_vertices, parent, second with_vertices, for_indexes}; "
     "shape: 511 subsets x 2 origins x {(unflipped, side 1, no offset), (flipped, side 0.5, seeded offsets)} x 49 reference points x 9 shapes x 2 "
-    "representations + <=108 vertex/edge-anchored squares per set; limits: 12 limit boxes x 3 scales x 2 representations",
+    "representations + <=108 vertex/edge-anchored squares per set; limits: 12 limit boxes x 3 scales x 2 representations; "
+    "scale: 46 subsets (<=2 triangles, full window) x side {1e-5,1e-4,1e-3,1e-2,1e2,1e3} x 3 (origin, flipped, offset) combos; "
+    "refine: 10 start sets x 2 origins x flipped x 3 points x 18 levels; fan: 3 rings x all valid subsets of 8 rim points x "
+    "{open, closed} (about 1100); strip: 6^n step codes, n<=4 (1554); patch: 511 subsets x 2 origins x 4 moves (all moves up to 4 "
+    "triangles, one rotating move above: 2552); hist: 46 subsets x 2 origins x 3 kept derivations x {unread, read} x 13 "
+    "interleavings x 2 representations",
     "thorough": "coord: 511 subsets of a 3x3 window x 4 origins + 4095 subsets of a 4x3 window x 2 origins, x flipped "
-    "x side {1,0.5,seeded} x 4 offsets; arrep: 511 subsets x 4 origins; shape: 511 subsets x 4 origins x flipped x 4 (side,offset) combos; limits: 12 boxes x 5 scales",
+    "x side {1,0.5,seeded} x 4 offsets; arrep: 511 subsets x 4 origins; shape: 511 subsets x 4 origins x flipped x 4 (side,offset) combos; limits: 12 boxes x 5 scales; "
+    "scale: 130 subsets (<=3 triangles, full window) x 13 sides (1e-6..1e4 and 3 seeded mantissas) x 6 combos; refine: 26 levels; "
+    "strip: n<=5 x {integer, seeded affine image}; patch: 511 subsets x 4 origins x 4 moves; hist: 130 subsets x 2 origins x 2 parameter sets",
 }
 
 # --------------------------------------------------------------------------------------------- domains
@@ -135,10 +173,135 @@ def cases(tier, seed):
     for (box, sc) in lim:
         for rep in ("array", "coord"):
             yield ["limits", rep, box[0], box[1], box[2], box[3], sc, int(seed)]
+    yield from scale_cases(tier, seed, sx, sy, sside)
+    yield from mesh_cases(tier, seed)
+    yield from hist_cases(tier, seed, sx, sy, sside)
     for bits in _subsets(12) if big else []:
         for (ox, oy) in big:
             for fl in (0, 1):
                 yield ["coord", 4, 3, ox, oy, bits, fl, 1.0, sx, sy, int(seed)]
+
+
+def _small_subsets(ncell, kmax):
+    full = 2 ** ncell - 1
+    return [b for b in _subsets(ncell) if bin(b).count("1") <= kmax] + [full]
+
+
+SCALE_SIDES = {
+    "quick": [1e-5, 1e-4, 1e-3, 1e-2, 1e2, 1e3],
+    "thorough": [1e-6, 1e-5, 1e-4, 1e-3, 1e-2, 1e-1, 1e1, 1e2, 1e3, 1e4],
+}
+REFINE_LEVELS = {"quick": 18, "thorough": 26}
+
+
+def scale_cases(tier, seed, sx, sy, sside):
+    """(S) the same lattice sets at tiny and huge side lengths, and sets reached by repeated up-sampling."""
+    sides = list(SCALE_SIDES[tier])
+    if tier != "quick":
+        sides += [round(sside * 1e-5, 12), round(sside * 1e-3, 10), round(sside * 1e3, 3)]
+    # (origin, flipped, offset kind): 0 = no offset, 1 = seeded offset in units of the side, 2 = absolute offset (2, 3)
+    combos = [(-1, -1, 0, 0), (-1, -1, 1, 1), (0, -1, 0, 2)]
+    if tier != "quick":
+        combos += [(0, -1, 1, 0), (-4, 3, 0, 1), (6, 2, 1, 2)]
+    for bits in _small_subsets(9, 2 if tier == "quick" else 3):
+        for side in sides:
+            for (ox, oy, fl, ok) in combos:
+                xo, yo = [(0.0, 0.0), (sx * side, sy * side), (2.0, 3.0)][ok]
+                yield ["scale", 3, 3, ox, oy, bits, fl, side, xo, yo, int(seed)]
+    # refinement chains: up_sample -> triangles containing a fixed point -> neighborhood -> up_sample -> ...
+    for bits in _subsets(4):
+        if bin(bits).count("1") > 2:
+            continue
+        for (ox, oy) in [(-1, -1), (0, -1)]:
+            for fl in (0, 1):
+                side0, xo, yo = [(1.0, 0.0, 0.0), (sside, sx, sy)][(bits + fl) % 2]
+                yield ["refine", 2, 2, ox, oy, bits, fl, side0, xo, yo, REFINE_LEVELS[tier], int(seed)]
+
+
+# ring of candidate rim points around a hub, in increasing polar angle (integer, irregular radii)
+FAN_RING = [(5, 1), (3, 4), (-1, 5), (-4, 2), (-3, -2), (-2, -4), (0, -2), (4, -3)]
+STRIP_STEPS = [(1, 0), (2, 0), (3, 0), (1, 1), (2, 1), (3, 1)]  # (advance along the row, height jitter) of one new vertex
+STRIP_MAX = {"quick": 4, "thorough": 5}
+PATCH_MOVES = 4
+
+
+def fan_ring(ring, seed):
+    """-> (hub, rim points in increasing polar angle).  ring 0: integers; ring 1: the same integers about another hub;
+    ring 2: seeded floats."""
+    if ring == 0:
+        return np.array([0.0, 0.0]), np.array(FAN_RING, float)
+    if ring == 1:
+        hub = np.array([7.0, -3.0])
+        return hub, np.array(FAN_RING, float)[::-1] * np.array([1.0, -1.0]) * 2.0 + hub  # mirrored (still increasing angle), doubled
+    r = dom.rng(seed, "c20-fan")
+    ang = np.deg2rad(45.0 * np.arange(8) + r.uniform(-15.0, 15.0, 8))
+    rad = r.uniform(1.5, 5.0, 8)
+    hub = np.round(r.uniform(-2.0, 2.0, 2), 4)
+    return hub, np.round(np.stack([rad * np.cos(ang), rad * np.sin(ang)], axis=1), 4) + hub
+
+
+def fan_valid(ring, bits, closed, seed):
+    hub, rim = fan_ring(ring, seed)
+    pts = [rim[k] - hub for k in range(8) if (bits >> k) & 1]
+    if len(pts) < (3 if closed else 2):
+        return False
+    pairs = list(zip(pts[:-1], pts[1:])) + ([(pts[-1], pts[0])] if closed else [])
+    for a, b in pairs:
+        if a[0] * b[1] - a[1] * b[0] <= 0.05 * math.hypot(*a) * math.hypot(*b):  # consecutive rim points turn by (0, pi)
+            return False
+    return True
+
+
+def strip_points(n, code):
+    pts = [(0, 0), (1, 3)]
+    for j in range(n):
+        step, jit = STRIP_STEPS[code % len(STRIP_STEPS)]
+        code //= len(STRIP_STEPS)
+        pts.append((pts[-2][0] + step, (0 if len(pts) % 2 == 0 else 3) + jit))
+    return pts
+
+
+def strip_valid(n, code):
+    """No triangle (j, j+1, j+2) of the strip is degenerate (three collinear vertices)."""
+    p = strip_points(n, code)
+    for j in range(n):
+        (ax, ay), (bx, by), (cx, cy) = p[j], p[j + 1], p[j + 2]
+        if (bx - ax) * (cy - ay) - (by - ay) * (cx - ax) == 0:
+            return False
+    return True
+
+
+def mesh_cases(tier, seed):
+    """(M) irregular vertex-array meshes: every fan on the rings, every strip, every moved lattice patch."""
+    for ring in (0, 1, 2):
+        for bits in _subsets(8):
+            for closed in (0, 1):
+                if fan_valid(ring, bits, closed, seed):
+                    yield ["fan", ring, bits, closed, int(seed)]
+    for n in range(1, STRIP_MAX[tier] + 1):
+        for code in range(len(STRIP_STEPS) ** n):
+            if not strip_valid(n, code):
+                continue
+            for variant in ((0,) if tier == "quick" else (0, 1)):
+                yield ["strip", n, code, variant, int(seed)]
+    origins = [(-1, -1), (0, -1)] if tier == "quick" else [(-1, -1), (0, -1), (-4, 3), (6, 2)]
+    for bits in _subsets(9):
+        for k, (ox, oy) in enumerate(origins):
+            for move in range(PATCH_MOVES):
+                if tier == "quick" and move != (bits + k) % PATCH_MOVES and bin(bits).count("1") > 4:
+                    continue  # quick: every move on the small patches, one move (rotating) on the larger ones
+                yield ["patch", 3, 3, ox, oy, bits, move, int(seed)]
+
+
+def hist_cases(tier, seed, sx, sy, sside):
+    """(H) histories inside one case: a derived set is kept while other calls are made, then inspected."""
+    params = [(0, 1.0, 0.0, 0.0), (1, 0.5, sx, sy)]
+    for bits in _small_subsets(9, 2 if tier == "quick" else 3):
+        for k, (ox, oy) in enumerate([(-1, -1), (0, -1)]):
+            for q, (fl, side, xo, yo) in enumerate(params):
+                if tier == "quick" and q != (bits + k) % 2:
+                    continue
+                yield ["hist", 3, 3, ox, oy, bits, fl, side, xo, yo, int(seed)]
 
 
 def window_coords(w, h, ox, oy, bits):
@@ -193,6 +356,22 @@ def ref_reflections(t):
     for a, b, c in np.asarray(t, float):
         out += [[_mirror(a, b, c), b, c], [a, _mirror(b, c, a), c], [a, b, _mirror(c, a, b)]]
     return np.array(out, float).reshape(-1, 3, 2)
+
+
+def ref_reflections_mid(t):
+    """Rows 3k..3k+2: parent k with one vertex reflected in the midpoint of the opposite edge (apex -> b + c - a): the
+    congruent triangle on the other side of that edge.  For an equilateral triangle this is the mirror image."""
+    out = []
+    for a, b, c in np.asarray(t, float):
+        out += [[b + c - a, b, c], [a, a + c - b, c], [a, b, a + b - c]]
+    return np.array(out, float).reshape(-1, 3, 2)
+
+
+def vtol(length, *arrs):
+    """Coincident-vertex tolerance REL x length, but never below 32 ulp of the largest coordinate involved (used by the
+    scale / irregular-mesh cases, where the side length can approach the resolution of the coordinates)."""
+    m = max([float(np.abs(np.asarray(a, float)).max()) for a in arrs if np.size(a)] + [0.0])
+    return max(REL * float(length), 32.0 * np.finfo(float).eps * m)
 
 
 def min_bary(points, tris):
@@ -250,6 +429,21 @@ def rel_close(a, b, rel=REL):
     return math.isfinite(a) and math.isfinite(b) and abs(a - b) <= rel * max(abs(a), abs(b), 1e-300)
 
 
+def area_rel(tris):
+    """Relative tolerance of an area comparison: REL, but never below the resolution of the shoelace formula itself on these
+    triangles, 256 eps x (largest coordinate) x (longest edge) / (smallest area).  The floor stays below REL on every set of
+    ordinary scale (coord / arrep / shape / limits cases); it only takes over when the side length approaches the resolution
+    of the coordinates (scale / refine cases) or a triangle is very thin (irregular meshes)."""
+    t = np.asarray(tris, float).reshape(-1, 3, 2)
+    if not len(t) or not np.isfinite(t).all():
+        return REL
+    a = float(shoelace(t).min())
+    if a <= 0.0:
+        return REL
+    e = np.concatenate([t[:, 0] - t[:, 1], t[:, 1] - t[:, 2], t[:, 2] - t[:, 0]])
+    return max(REL, 256.0 * np.finfo(float).eps * float(np.abs(t).max()) * float(np.sqrt((e ** 2).sum(axis=1)).max()) / a)
+
+
 def tris_of(obj):
     t = np.asarray(obj.triangles, float)
     return t.reshape(-1, 3, 2) if t.size else np.zeros((0, 3, 2))
@@ -268,7 +462,7 @@ def check_area_property(v, rep, obj, tris):
     """The object's own .area agrees with the sum of the shoelace areas of its own triangles."""
     want = float(shoelace(tris).sum())
     got = float(obj.area)
-    v.ok(rel_close(got, want) or (want == 0.0 and got == 0.0), "%s.area" % rep,
+    v.ok(rel_close(got, want, area_rel(tris)) or (want == 0.0 and got == 0.0), "%s.area" % rep,
          lambda: "%s.area=%r but sum of shoelace areas of its %d triangles=%r" % (rep, got, len(tris), want))
 
 
@@ -311,19 +505,20 @@ def check_up_sample(v, rep, parents, up, tol, lattice, sfx=""):
         v.ok(True, "%s.up_sample:children%s" % (rep, sfx))
 
     pa, ca = shoelace(parents), shoelace(up_tr)
+    arel = area_rel(parents)
     if not dup and len(pk) == len(P):
-        v.ok(rel_close(ca.sum(), pa.sum()), "%s.up_sample:area%s" % (rep, sfx),
+        v.ok(rel_close(ca.sum(), pa.sum(), arel), "%s.up_sample:area%s" % (rep, sfx),
              lambda: "total area %r -> %r" % (float(pa.sum()), float(ca.sum())))
         if len(ca) == 4 * N:
             want = np.sort(np.repeat(pa / 4.0, 4))
-            v.ok(bool(np.allclose(np.sort(ca), want, rtol=REL, atol=0.0)), "%s.up_sample:area%s" % (rep, sfx),
+            v.ok(bool(np.allclose(np.sort(ca), want, rtol=arel, atol=0.0)), "%s.up_sample:area%s" % (rep, sfx),
                  lambda: "child areas %s are not a quarter of the parent areas %s" % (np.sort(ca)[:8].tolist(), pa[:2].tolist()))
     else:  # duplicates in the array form: compare the distinct geometric triangles only
         first_p = {k: i for i, k in reversed(list(enumerate(pk)))}
         first_c = {k: i for i, k in reversed(list(enumerate(okk)))}
         sp = float(sum(pa[i] for i in first_p.values()))
         sc = float(sum(ca[i] for i in first_c.values()))
-        v.ok(rel_close(sc, sp), "%s.up_sample:area%s" % (rep, sfx), lambda: "distinct-triangle area %r -> %r" % (sp, sc))
+        v.ok(rel_close(sc, sp, arel), "%s.up_sample:area%s" % (rep, sfx), lambda: "distinct-triangle area %r -> %r" % (sp, sc))
     check_area_property(v, rep, up, up_tr)
 
     pv = set(np.asarray(ids[0]).ravel().tolist())
@@ -342,15 +537,17 @@ def is_equilateral(t):
     return bool(len(el) and np.isfinite(el).all() and np.allclose(el, el.mean(), rtol=1e-6, atol=0.0))
 
 
-def check_neighborhood(v, rep, parents, nb, tol, lattice):
-    if not is_equilateral(parents):
-        return None  # only reachable behind an up_sample defect: the law is stated for the equilateral lattice only
+def check_neighborhood(v, rep, parents, nb, tol, lattice, sfx="", midpoint=False):
+    """midpoint=False: equilateral sets, neighbour = mirror image in the edge.  midpoint=True: general triangles, neighbour =
+    reflection in the midpoint of the edge.  sfx = input-class suffix of the finding ids."""
+    if not midpoint and not is_equilateral(parents):
+        return None  # only reachable behind an up_sample defect: the mirror law is stated for the equilateral lattice only
     N = len(parents)
     nb_tr = tris_of(nb)
-    ref = ref_reflections(parents)
+    ref = ref_reflections_mid(parents) if midpoint else ref_reflections(parents)
     ids = cluster_ids([parents, ref, nb_tr], tol)
     if ids is None:
-        v.fail("%s.neighborhood:non-finite" % rep, "non-finite vertex in neighbourhood")
+        v.fail("%s.neighborhood:non-finite%s" % (rep, sfx), "non-finite vertex in neighbourhood")
         return None
     pk, rk, okk = tri_keys(ids[0]), tri_keys(ids[1]), tri_keys(ids[2])
     P, R, O = set(pk), set(rk), set(okk)
@@ -358,23 +555,23 @@ def check_neighborhood(v, rep, parents, nb, tol, lattice):
     miss_o = [i for i, k in enumerate(pk) if k not in O]
     miss_n = [i for i, k in enumerate(rk) if k not in O]
     extra = [i for i, k in enumerate(okk) if k not in P and k not in R]
-    v.ok(not miss_o, "%s.neighborhood:missing-original" % rep,
+    v.ok(not miss_o, "%s.neighborhood:missing-original%s" % (rep, sfx),
          lambda: "original triangle %s absent from its own neighbourhood (%d missing)" % (np.round(parents[miss_o[0]], 6).tolist(), len(miss_o)))
     if miss_n:
         i = miss_n[0]
-        cls = "%s.neighborhood:missing-neighbour" % rep
+        cls = "%s.neighborhood:missing-neighbour%s" % (rep, sfx)
         if lattice:
             cls += ":%s-parent" % orientation(parents[i // 3])
         v.fail(cls, "parent %s: neighbour across edge opposite vertex %d, %s, absent; %d neighbours missing, %d unexpected present e.g. %s"
                % (np.round(parents[i // 3], 6).tolist(), i % 3, np.round(ref[i], 6).tolist(), len(miss_n), len(extra),
                   np.round(nb_tr[extra[0]], 6).tolist() if extra else None))
     elif extra:
-        v.fail("%s.neighborhood:extra" % rep, "%d triangles that are neither original nor edge neighbour, e.g. %s"
-               % (len(extra), np.round(nb_tr[extra[0]], 6).tolist()))
+        v.fail("%s.neighborhood:extra%s" % (rep, sfx), "%d triangles that are neither original nor edge neighbour, e.g. %s"
+               % (len(extra), nb_tr[extra[0]].tolist()))
     else:
-        v.ok(True, "%s.neighborhood" % rep)
+        v.ok(True, "%s.neighborhood%s" % (rep, sfx))
     if rep == "coord":
-        v.ok(not dup and len(nb) == len(O), "coord.neighborhood:duplicates",
+        v.ok(not dup and len(nb) == len(O), "coord.neighborhood:duplicates" + sfx,
              lambda: "len=%d rows=%d distinct geometric triangles=%d" % (len(nb), len(okk), len(O)))
     check_area_property(v, rep, nb, nb_tr)
     return dup
@@ -466,8 +663,41 @@ def shape_menu(S, px, py, r, big):
     ]
 
 
-def check_shapes(v, arr, coord, tris, side, seed):
-    """arr: ArrayTriangles of the set; coord: CoordinateArrayTriangles of the same set or None."""
+def check_one_shape(v, S, arr, coord, tris, name, shp, ref, sfx=""):
+    """One shape against one set.  -> (must, outside): indices of the triangles the reference point is strictly inside /
+    strictly outside of, by the reference model."""
+    N = len(tris)
+    mb = min_bary([ref], tris)[0]
+    must = set(np.flatnonzero(mb > MARGIN).tolist())
+    outside = set(np.flatnonzero(mb < -MARGIN).tolist())
+    got = np.asarray(arr.containing_indices(shp))
+    good = got.ndim == 1 and got.dtype.kind in "iu" and (len(got) == 0 or (
+        got.min() >= 0 and got.max() < N and len(set(got.tolist())) == len(got)))
+    v.ok(good, "containing_indices:%s:index-range%s" % (name, sfx), lambda: "indices %s for %d triangles" % (got, N))
+    if not good:
+        return must, outside
+    gs = set(got.tolist())
+    cls = name
+    if name != "Point" and not must <= gs:
+        # every shape ORs in Point.mask at its reference point: blame Point if a bare Point misses it too
+        gp = np.asarray(arr.containing_indices(S.Point(ref[0], ref[1])))
+        if not must <= set(gp.tolist()):
+            cls = "Point"
+    v.ok(must <= gs, "containing_indices:%s%s" % (cls, sfx),
+         lambda: "reference point %s strictly inside triangle(s) %s = %s but reported %s"
+         % (ref, sorted(must - gs), tris[sorted(must - gs)[0]].tolist(), sorted(gs)))
+    if name == "Point":
+        v.ok(not (gs & outside), "containing_indices:Point:spurious" + sfx,
+             lambda: "point %s reported inside triangle(s) %s it is strictly outside of" % (ref, sorted(gs & outside)))
+    if coord is not None:
+        gc = np.asarray(coord.containing_indices(shp))
+        v.ok(gc.shape == got.shape and np.array_equal(gc, got), "coord.containing_indices:differs-from-array" + sfx,
+             lambda: "%s at %s: coordinate representation reports %s, vertex-array representation %s" % (name, ref, gc, got))
+    return must, outside
+
+
+def check_shapes(v, arr, coord, tris, side, seed, n=7, sfx=""):
+    """arr: ArrayTriangles of the set; coord: CoordinateArrayTriangles of the same set or None.  n x n reference points."""
     from autoarray.structures.triangles import shape as S
 
     N = len(tris)
@@ -475,42 +705,17 @@ def check_shapes(v, arr, coord, tris, side, seed):
     hi = tris.reshape(-1, 2).max(axis=0) + 0.3 * side
     jit = dom.rng(seed, "c20-jitter").uniform(-0.03, 0.03, (7, 7, 2)) * side
     n_in = n_out = n_undecided = 0
-    for i in range(7):
-        for j in range(7):
-            px = float(lo[0] + (hi[0] - lo[0]) * i / 6.0 + jit[i, j, 0])
-            py = float(lo[1] + (hi[1] - lo[1]) * j / 6.0 + jit[i, j, 1])
+    for i in range(n):
+        for j in range(n):
+            px = float(lo[0] + (hi[0] - lo[0]) * i / (n - 1.0) + jit[i, j, 0])
+            py = float(lo[1] + (hi[1] - lo[1]) * j / (n - 1.0) + jit[i, j, 1])
             for name, shp, ref in shape_menu(S, px, py, side, big=bool((i + j) % 2)):
-                mb = min_bary([ref], tris)[0]
-                must = set(np.flatnonzero(mb > MARGIN).tolist())
-                outside = set(np.flatnonzero(mb < -MARGIN).tolist())
+                must, outside = check_one_shape(v, S, arr, coord, tris, name, shp, ref, sfx)
                 if name == "Point":
                     n_in += bool(must)
                     n_out += len(outside) == N
                     n_undecided += N - len(must) - len(outside)
-                got = np.asarray(arr.containing_indices(shp))
-                good = got.ndim == 1 and got.dtype.kind in "iu" and (len(got) == 0 or (
-                    got.min() >= 0 and got.max() < N and len(set(got.tolist())) == len(got)))
-                v.ok(good, "containing_indices:%s:index-range" % name, lambda: "indices %s for %d triangles" % (got, N))
-                if not good:
-                    continue
-                gs = set(got.tolist())
-                cls = name
-                if name != "Point" and not must <= gs:
-                    # every shape ORs in Point.mask at its reference point: blame Point if a bare Point misses it too
-                    gp = np.asarray(arr.containing_indices(S.Point(ref[0], ref[1])))
-                    if not must <= set(gp.tolist()):
-                        cls = "Point"
-                v.ok(must <= gs, "containing_indices:%s" % cls,
-                     lambda: "reference point %s strictly inside triangle(s) %s = %s but reported %s"
-                     % (ref, sorted(must - gs), np.round(tris[sorted(must - gs)[0]], 6).tolist(), sorted(gs)))
-                if name == "Point":
-                    v.ok(not (gs & outside), "containing_indices:Point:spurious",
-                         lambda: "point %s reported inside triangle(s) %s it is strictly outside of" % (ref, sorted(gs & outside)))
-                if coord is not None:
-                    gc = np.asarray(coord.containing_indices(shp))
-                    v.ok(gc.shape == got.shape and np.array_equal(gc, got), "coord.containing_indices:differs-from-array",
-                         lambda: "%s at %s: coordinate representation reports %s, vertex-array representation %s" % (name, ref, gc, got))
-    check_anchored_squares(v, S, arr, coord, tris, side)
+    check_anchored_squares(v, S, arr, coord, tris, side, sfx)
     return n_in, n_out, n_undecided
 
 
@@ -541,7 +746,7 @@ def anchored_squares(tris, side):
     return out
 
 
-def check_anchored_squares(v, S, arr, coord, tris, side):
+def check_anchored_squares(v, S, arr, coord, tris, side, sfx=""):
     N = len(tris)
     sq = anchored_squares(tris, side)
     if not sq:
@@ -554,7 +759,7 @@ def check_anchored_squares(v, S, arr, coord, tris, side):
         got = np.asarray(arr.containing_indices(shp))
         good = got.ndim == 1 and got.dtype.kind in "iu" and (len(got) == 0 or (
             got.min() >= 0 and got.max() < N and len(set(got.tolist())) == len(got)))
-        v.ok(good, "containing_indices:Square:index-range", lambda: "indices %s for %d triangles" % (got, N))
+        v.ok(good, "containing_indices:Square:index-range" + sfx, lambda: "indices %s for %d triangles" % (got, N))
         if not good:
             continue
         gs = set(got.tolist())
@@ -563,25 +768,25 @@ def check_anchored_squares(v, S, arr, coord, tris, side):
             gp = np.asarray(arr.containing_indices(S.Point(px, py)))
             if not must <= set(gp.tolist()):
                 cls = "Point"
-        v.ok(must <= gs, "containing_indices:%s" % cls,
+        v.ok(must <= gs, "containing_indices:%s%s" % (cls, sfx),
              lambda: "square centre %s (%s, half extents %s) strictly inside triangle(s) %s = %s but reported %s"
-             % ((px, py), kind, (h0, h1), sorted(must - gs), np.round(tris[sorted(must - gs)[0]], 6).tolist(), sorted(gs)))
+             % ((px, py), kind, (h0, h1), sorted(must - gs), tris[sorted(must - gs)[0]].tolist(), sorted(gs)))
         if coord is not None and q % 4 == 0:
             gc = np.asarray(coord.containing_indices(shp))
-            v.ok(gc.shape == got.shape and np.array_equal(gc, got), "coord.containing_indices:differs-from-array",
+            v.ok(gc.shape == got.shape and np.array_equal(gc, got), "coord.containing_indices:differs-from-array" + sfx,
                  lambda: "Square at %s: coordinate representation reports %s, vertex-array representation %s" % ((px, py), gc, got))
 
 
 # --------------------------------------------------------------------------------------------- case runners
 
 
-def examine_coord(v, T, side, seed, depth, small_sel):
+def examine_coord(v, T, side, seed, depth, small_sel, tol=None):
     """All laws on one CoordinateArrayTriangles object T and on the ArrayTriangles of the same set."""
     from autoarray.structures.triangles.array import ArrayTriangles
 
     tr = tris_of(T)
     N = len(tr)
-    tol = REL * side
+    tol = REL * side if tol is None else tol
     v.ok(len(T) == N == np.asarray(T.coordinates).shape[0], "coord.len", lambda: "len=%d rows=%d" % (len(T), N))
     e = np.concatenate([tr[:, 0] - tr[:, 1], tr[:, 1] - tr[:, 2], tr[:, 2] - tr[:, 0]])
     el = np.sqrt((e ** 2).sum(axis=1))
@@ -596,7 +801,8 @@ def examine_coord(v, T, side, seed, depth, small_sel):
     a_tr = tris_of(A)
     v.ok(a_tr.shape == tr.shape and np.array_equal(a_tr, tr), "representations-differ:triangles",
          lambda: "with_vertices(vertices).triangles differs from .triangles by %s" % dom.maxdiff(a_tr, tr))
-    v.ok(rel_close(A.area, T.area), "representations-differ:area", lambda: "array %r coord %r" % (A.area, T.area))
+    arel = area_rel(tr)
+    v.ok(rel_close(A.area, T.area, arel), "representations-differ:area", lambda: "array %r coord %r" % (A.area, T.area))
     v.ok(len(A) == len(T), "representations-differ:len", lambda: "array %d coord %d" % (len(A), len(T)))
     A2 = ArrayTriangles(indices=T.indices, vertices=T.vertices)
     v.ok(np.array_equal(tris_of(A2), tr), "representations-differ:triangles", "ArrayTriangles(indices, vertices)")
@@ -605,12 +811,12 @@ def examine_coord(v, T, side, seed, depth, small_sel):
     dups = 0
     up = T.up_sample()
     check_up_sample(v, "coord", tr, up, tol, True)
-    v.ok(rel_close(up.area, T.area), "coord.up_sample:area", lambda: "reported area %r -> %r" % (T.area, up.area))
+    v.ok(rel_close(up.area, T.area, arel), "coord.up_sample:area", lambda: "reported area %r -> %r" % (T.area, up.area))
     nb = T.neighborhood()
     check_neighborhood(v, "coord", tr, nb, tol, True)
     upA = A.up_sample()
     dups += bool(check_up_sample(v, "array", tr, upA, tol, False))
-    v.ok(rel_close(upA.area, A.area), "array.up_sample:area", lambda: "reported area %r -> %r" % (A.area, upA.area))
+    v.ok(rel_close(upA.area, A.area, arel), "array.up_sample:area", lambda: "reported area %r -> %r" % (A.area, upA.area))
     nbA = A.neighborhood()
     dupn = bool(check_neighborhood(v, "array", tr, nbA, tol, False))
 
@@ -831,6 +1037,272 @@ def check_read_then_derive(v, ArrayTriangles, S, vx, ix, seed):
                     d["finding"] = ID + ":" + plain
 
 
+# --------------------------------------------------------------------------------------------- (S) scale
+
+
+REFINE_WEIGHTS = [(0.5, 0.3, 0.2), (0.12, 0.23, 0.65)]
+
+
+def run_refine(v, S, T0, side0, levels, seed):
+    """Repeated refinement about a fixed point, in both representations: up_sample, keep the children that (by the reference
+    model) are not strictly outside the point, take their neighbourhood, repeat.  At every level the subdivision law, the
+    neighbourhood law and the containment rule for every shape are demanded of the sets reached."""
+    tr0 = tris_of(T0)
+    r = dom.rng(seed, "c20-refine")
+    w3 = r.uniform(0.1, 1.0, 3)
+    weights = REFINE_WEIGHTS + [tuple((w3 / w3.sum()).tolist())]
+    deepest, n_in = side0, 0
+    for q, w in enumerate(weights):
+        k = (q * (len(tr0) - 1)) // max(1, len(weights) - 1) if len(tr0) > 1 else 0
+        p = np.asarray(w) @ tr0[k]
+        px, py = float(p[0]), float(p[1])
+        cur, acur, side = T0, T0.with_vertices(T0.vertices), side0
+        for lev in range(1, levels + 1):
+            side = side / 2.0
+            menu = shape_menu(S, px, py, side, big=bool((lev + q) % 2))
+            # coordinate representation
+            ptr = tris_of(cur)
+            up = cur.up_sample()
+            utr = tris_of(up)
+            tol = vtol(side, utr)
+            check_up_sample(v, "coord", ptr, up, tol, True, ":scale")
+            v.ok(rel_close(up.side_length, side), "coord.up_sample:side_length:scale",
+                 lambda: "level %d: side_length %r, want %r" % (lev, up.side_length, side))
+            ua = up.with_vertices(up.vertices)
+            for name, shp, ref in menu:
+                must, _ = check_one_shape(v, S, ua, up, utr, name, shp, ref, ":scale")
+                n_in += bool(must)
+            keep = np.flatnonzero(min_bary([p], utr)[0] > -MARGIN)
+            v.ok(len(keep) > 0, "coord.up_sample:children:scale",
+                 lambda: "level %d: the point %s lay in the parent set but in none of its children" % (lev, (px, py)))
+            # vertex-array representation
+            aptr = tris_of(acur)
+            aup = acur.up_sample()
+            autr = tris_of(aup)
+            atol = vtol(side, autr)
+            check_up_sample(v, "array", aptr, aup, atol, False, ":scale")
+            for name, shp, ref in menu:
+                check_one_shape(v, S, aup, None, autr, name, shp, ref, ":scale")
+            akeep = np.flatnonzero(min_bary([p], autr)[0] > -MARGIN)
+            v.ok(len(akeep) > 0, "array.up_sample:children:scale",
+                 lambda: "level %d: the point %s lay in the parent set but in none of its children" % (lev, (px, py)))
+            if not len(keep) or not len(akeep) or len(v.violations) >= 20:
+                break
+            sel = up.for_indexes(keep)
+            check_for_indexes(v, "coord", up, utr, [tuple(keep.tolist())], tol, ":scale")
+            cur = sel.neighborhood()
+            check_neighborhood(v, "coord", utr[keep], cur, tol, True, ":scale")
+            asel = aup.for_indexes(akeep)
+            check_for_indexes(v, "array", aup, autr, [tuple(akeep.tolist())], atol, ":scale")
+            acur = asel.neighborhood()
+            check_neighborhood(v, "array", autr[akeep], acur, atol, False, ":scale")
+            deepest = min(deepest, side)
+    return deepest, n_in
+
+
+# --------------------------------------------------------------------------------------------- (M) irregular meshes
+
+
+def fan_mesh(ring, bits, closed, seed):
+    hub, rim = fan_ring(ring, seed)
+    pts = [rim[k] for k in range(8) if (bits >> k) & 1]
+    vx = np.array([hub] + pts, float)
+    n = len(pts)
+    ix = [[0, 1 + i, 2 + i] for i in range(n - 1)] + ([[0, n, 1]] if closed else [])
+    if ring == 2:  # the vertex array in another order than hub, rim
+        perm = dom.rng(seed, "c20-fan-perm", bits).permutation(len(vx))
+        inv = np.argsort(perm)
+        return vx[perm], inv[np.array(ix, dtype=np.int64)]
+    return vx, np.array(ix, dtype=np.int64)
+
+
+def strip_mesh(n, code, variant, seed):
+    """Triangle strip (j, j+1, j+2), j < n: vertices alternate between a lower and an upper row, each row advancing by an
+    irregular step; no three consecutive vertices collinear; variant 1 maps the integer strip by the seeded affine map."""
+    vx = np.array(strip_points(n, code), float)
+    if variant:
+        m, sh = affine_menu(seed)[1]
+        vx = vx @ m.T + sh
+    return vx, np.array([[j, j + 1, j + 2] for j in range(n)], dtype=np.int64)
+
+
+def patch_moved(vx_int, move, seed, salt=0):
+    """New positions of the vertices of a lattice patch (vx_int: integer lattice ids, first unit half a side, second unit
+    half a height)."""
+    x, y = vx_int[:, 0].astype(np.int64), vx_int[:, 1].astype(np.int64)
+    if move == 0:  # integer, not affine: five times the skew map plus a position-dependent integer displacement in {0,1,2}
+        return np.stack([5 * (3 * x + y) + (x * y) % 3, 5 * (-x + 2 * y) + (x + y * y) % 3], axis=1).astype(float)
+    v1 = vx_int.astype(float) * np.array([0.5, 0.5 * 3 ** 0.5 / 2])  # the unit equilateral lattice
+    if move == 1:  # seeded affine image
+        m, sh = affine_menu(seed)[1]
+        return v1 @ m.T + sh
+    if move == 2:  # every vertex moved on its own by less than a fifth of a side: the mesh stays a triangulation
+        jit = dom.rng(seed, "c20-patch-jitter").uniform(-0.2, 0.2, (64, 2))
+        key = ((x - x.min()) * 7 + (y - y.min())) % 64
+        return v1 + jit[key]
+    # every vertex sent to an unrelated position (a mesh traced through a strongly non-linear map: triangles may fold over
+    # each other, only the connectivity is kept); generic positions, so no two vertices or midpoints coincide
+    return np.round(dom.rng(seed, "c20-patch-scramble", salt).uniform(-4.0, 4.0, (len(vx_int), 2)), 4)
+
+
+def examine_mesh(v, S, A, vx, ix, sfx=":irregular"):
+    """All laws on one general ArrayTriangles A whose triangles are vx[ix] (by construction, not by the library)."""
+    tr = gather(vx, ix)
+    N = len(tr)
+    L = min_edge(tr)
+    tol = vtol(L, tr)
+    t = np.asarray(A.triangles, float)
+    v.ok(t.shape == tr.shape and np.array_equal(t, tr), "array.triangles" + sfx, ".triangles differs from vertices[indices]")
+    check_area_property(v, "array", A, tr)
+    nb = A.neighborhood()
+    dupn = bool(check_neighborhood(v, "array", tr, nb, tol, False, sfx, midpoint=True))
+    nb_tr = tris_of(nb)
+    if len(nb_tr) <= 48:
+        check_neighborhood(v, "array", nb_tr, nb.neighborhood(), vtol(L, nb_tr), False, sfx, midpoint=True)
+    up = A.up_sample()
+    dups = bool(check_up_sample(v, "array", tr, up, tol, False, sfx))
+    v.ok(rel_close(up.area, shoelace(tr).sum(), area_rel(tr)), "array.up_sample:area" + sfx,
+         lambda: "reported area %r -> %r" % (float(shoelace(tr).sum()), up.area))
+    up_tr = tris_of(up)
+    if len(up_tr) <= 48:
+        check_neighborhood(v, "array", up_tr, up.neighborhood(), tol / 2, False, sfx, midpoint=True)
+    sels = selections_small(N) if N <= 3 else [(), (N - 1,), (0, N - 1), (2, 0, 1), tuple(range(N - 1, -1, -1))]
+    check_for_indexes(v, "array", A, tr, sels, tol, sfx)
+    n_in = 0
+    for k in (range(N) if N <= 6 else sorted({0, 1, N // 2, N - 2, N - 1})):
+        w = np.roll(np.array(REFINE_WEIGHTS[k % 2]), k)
+        p = w @ tr[k]
+        tl = min_edge(tr[k : k + 1])
+        for name, shp, ref in shape_menu(S, float(p[0]), float(p[1]), tl, big=bool(k % 2)):
+            must, _ = check_one_shape(v, S, A, None, tr, name, shp, ref, sfx)
+            n_in += bool(must)
+    return N, len(nb_tr), dupn, dups, n_in
+
+
+# --------------------------------------------------------------------------------------------- (H) histories
+
+HIST_KEPT = ["up_sample", "neighborhood", "for_indexes"]
+HIST_OPS = ["up_sample", "neighborhood", "for_indexes", "contain"]
+HIST_TARGETS = ["parent", "other", "other-of-kept-size"]
+HIST_INTERLEAVINGS = [(t, o) for t in HIST_TARGETS for o in HIST_OPS] + [("all", "all")]
+
+
+def hist_derive(X, kept, sel):
+    if kept == "up_sample":
+        return X.up_sample()
+    if kept == "neighborhood":
+        return X.neighborhood()
+    return X.for_indexes(sel)
+
+
+def hist_call(obj, op, S, pt, h):
+    if op == "up_sample":
+        obj.up_sample()
+    elif op == "neighborhood":
+        obj.neighborhood()
+    elif op == "for_indexes":
+        obj.for_indexes(np.arange(len(np.asarray(obj.indices)))[::-1])
+    else:
+        obj.containing_indices(S.Point(pt[0], pt[1]))
+        obj.containing_indices(S.Square(top=pt[1] - h, bottom=pt[1] + h, left=pt[0] - h, right=pt[0] + h))
+
+
+def hist_observe(D, S, rep, pt, sel, start):
+    """Copies of every observable of the set D, visited cyclically from `start`."""
+    out = {}
+
+    def put(name, fn):
+        out[name] = np.array(fn())
+
+    obs = [
+        ("triangles", lambda: np.asarray(D.triangles, float)),
+        ("vertices", lambda: np.asarray(D.vertices, float)),
+        ("indices", lambda: np.asarray(D.indices)),
+        ("area", lambda: float(D.area)),
+        ("len", lambda: len(D)),
+        ("means", lambda: np.asarray(D.means, float)),
+        ("up_sample", lambda: np.asarray(D.up_sample().triangles, float)),
+        ("neighborhood", lambda: np.asarray(D.neighborhood().triangles, float)),
+        ("for_indexes", lambda: np.asarray(D.for_indexes(sel).triangles, float)),
+        ("containing_indices", lambda: np.asarray(D.containing_indices(S.Point(pt[0], pt[1])))),
+        ("with_vertices", lambda: np.asarray(D.with_vertices(np.asarray(D.vertices, float) * 2.0 + 1.0).triangles, float)),
+    ]
+    if rep == "coord":
+        obs += [("coordinates", lambda: np.asarray(D.coordinates, float)),
+                ("parameters", lambda: [float(D.side_length), float(D.x_offset), float(D.y_offset), float(bool(D.flipped))])]
+    for q in range(len(obs)):
+        put(*obs[(start + q) % len(obs)])
+    return out
+
+
+def check_histories(v, S, rep, mk_parent, mk_other, ptr, tol, lattice):
+    """rep 'coord' / 'array'; mk_parent() / mk_other() build fresh, equal copies of the parent set and of another set with the
+    same number of triangles; ptr = (N,3,2) triangles of the parent by the reference construction."""
+    N = len(ptr)
+    selK = np.array([N - 1, 0][: min(N, 2)])
+
+    def against_model(D, kept, sfx):
+        if kept == "up_sample":
+            check_up_sample(v, rep, ptr, D, tol, lattice, sfx)
+        elif kept == "neighborhood":
+            check_neighborhood(v, rep, ptr, D, tol, lattice, sfx)
+        else:
+            got = tris_of(D)
+            ids = cluster_ids([ptr[selK], got], tol) if got.shape == ptr[selK].shape else None
+            v.ok(ids is not None and tri_keys(ids[0]) == tri_keys(ids[1]), "%s.for_indexes%s" % (rep, sfx),
+                 lambda: "selection %s: returned %s, selected %s" % (selK.tolist(), got.tolist()[:3], ptr[selK].tolist()[:3]))
+
+    combo = 0
+    for kept in HIST_KEPT:
+        fid = "%s.%s:history" % (rep, kept)
+        # the value computed before any other call: a twin derived from an equal, fresh parent and read completely at once
+        twin = hist_derive(mk_parent(), kept, selK)
+        ttr = tris_of(twin)
+        if len(ttr) == 0:
+            v.fail("%s.%s" % (rep, kept), "empty result")
+            continue
+        pt = ttr[0].mean(axis=0)
+        h = 0.4 * min_edge(ttr[:1])
+        selD = np.array([len(ttr) - 1, 0][: min(len(ttr), 2)])
+        S0 = hist_observe(twin, S, rep, pt, selD, 0)
+        against_model(twin, kept, "")
+
+        def same(Sx, what):
+            good = True
+            for name, val in S0.items():
+                got = Sx[name]
+                good &= v.ok(got.shape == val.shape and np.array_equal(got, val), fid,
+                             lambda: "%s: .%s of the kept %s() result differs from the value computed before the other calls by %s"
+                             % (what, name, kept, dom.maxdiff(got, val)))
+                if not good:
+                    break
+            return good
+
+        for read in (0, 1):
+            for (target, op) in HIST_INTERLEAVINGS:
+                combo += 1
+                X = mk_parent()
+                D = hist_derive(X, kept, selK)
+                if read:
+                    same(hist_observe(D, S, rep, pt, selD, combo), "read at once")
+                calls = [(t, o) for t in HIST_TARGETS for o in HIST_OPS] if target == "all" else [(target, op)]
+                others = {}
+                for (t, o) in calls:
+                    if t == "parent":
+                        obj = X
+                    elif t == "other":
+                        obj = others.get(t) or others.setdefault(t, mk_other())
+                    else:
+                        obj = others.get(t) or others.setdefault(t, hist_derive(mk_other(), kept, selK))
+                    hist_call(obj, o, S, pt, h)
+                what = "%s %s, then %s on %s" % ("read" if read else "unread", kept, op, target)
+                good = same(hist_observe(D, S, rep, pt, selD, combo + 3), what)
+                if target == "all" or not good:
+                    against_model(D, kept, ":history")
+                if len(v.violations) >= 20:
+                    return
+
+
 def is_nontrivial(tr, tol, axis=1):
     if len(tr) < 2:
         return False
@@ -931,6 +1403,71 @@ def run_case(case):
              % (pts[:, 0].min(), pts[:, 0].max(), pts[:, 1].min(), pts[:, 1].max(), first, second))
         v.nontrivial = is_nontrivial(tr, tol, 1 if rep == "coord" else 0) and n_in > 0
         v.outcome = "limits:%s:N%d:nb%d:arraydup%d%d:limdup%d" % (rep, N, K, dupn, dups, limdup)
+    elif kind == "scale":
+        _, w, h, ox, oy, bits, fl, side, xo, yo, seed = case
+        T = CoordinateArrayTriangles(coordinates=window_coords(w, h, ox, oy, bits), side_length=side,
+                                     x_offset=xo, y_offset=yo, flipped=bool(fl))
+        tr = tris_of(T)
+        tol = vtol(side, tr)
+        N, K, dupn, dups = examine_coord(v, T, side, seed, depth=1, small_sel=True, tol=tol)
+        A = T.with_vertices(T.vertices)
+        n_in, n_out, n_und = check_shapes(v, A, T, tr, side, seed, n=5, sfx=":scale")
+        v.nontrivial = n_in > 0 and n_out > 0
+        v.outcome = "scale:1e%d:N%d:in%d" % (int(math.floor(math.log10(side) + 1e-9)), N, min(n_in, 1))
+    elif kind == "refine":
+        from autoarray.structures.triangles import shape as S
+
+        _, w, h, ox, oy, bits, fl, side0, xo, yo, levels, seed = case
+        T = CoordinateArrayTriangles(coordinates=window_coords(w, h, ox, oy, bits), side_length=side0,
+                                     x_offset=xo, y_offset=yo, flipped=bool(fl))
+        deepest, n_in = run_refine(v, S, T, side0, levels, seed)
+        v.nontrivial = n_in > 0 and deepest <= side0 * 2.0 ** -(levels - 1)
+        v.outcome = "refine:N%d:deepest1e%d" % (len(tris_of(T)), int(math.floor(math.log10(deepest))))
+    elif kind in ("fan", "strip", "patch"):
+        from autoarray.structures.triangles import shape as S
+
+        if kind == "fan":
+            _, ring, bits, closed, seed = case
+            vx, ix = fan_mesh(ring, bits, closed, seed)
+            A = ArrayTriangles(indices=ix.copy(), vertices=vx.copy())
+        elif kind == "strip":
+            _, n, code, variant, seed = case
+            vx, ix = strip_mesh(n, code, variant, seed)
+            A = ArrayTriangles(indices=ix.copy(), vertices=vx.copy())
+        else:
+            _, w, h, ox, oy, bits, move, seed = case
+            vi, ix = int_lattice_set(w, h, ox, oy, bits)
+            v1 = vi.astype(float) * np.array([0.5, 0.5 * 3 ** 0.5 / 2])
+            vx = patch_moved(vi, move, seed, salt=(ox, oy, bits))
+            A = ArrayTriangles(indices=ix.copy(), vertices=v1).with_vertices(vx.copy())
+        N, K, dupn, dups, n_in = examine_mesh(v, S, A, vx, ix)
+        v.nontrivial = N >= 2 and n_in > 0
+        v.outcome = "%s:N%d:nb%d:arraydup%d%d" % (kind, N, K, dupn, dups)
+    elif kind == "hist":
+        from autoarray.structures.triangles import shape as S
+
+        _, w, h, ox, oy, bits, fl, side, xo, yo, seed = case
+        co = window_coords(w, h, ox, oy, bits)
+        oth = co + np.array([5, 2])  # parity of every coordinate sum changes and so does `flipped`: the same orientation pattern
+
+        def mk_parent():
+            return CoordinateArrayTriangles(coordinates=co.copy(), side_length=side, x_offset=xo, y_offset=yo, flipped=bool(fl))
+
+        def mk_other():
+            return CoordinateArrayTriangles(coordinates=oth.copy(), side_length=2.0 * side, x_offset=yo - 0.25, y_offset=xo + 0.5,
+                                            flipped=not bool(fl))
+
+        T = mk_parent()
+        ptr = np.array(tris_of(T))
+        tol = REL * side
+        check_histories(v, S, "coord", mk_parent, mk_other, ptr, tol, True)
+        pvx, pix = np.array(T.vertices, float), np.array(T.indices)
+        O = mk_other()
+        ovx, oix = np.array(O.vertices, float), np.array(O.indices)
+        check_histories(v, S, "array", lambda: ArrayTriangles(indices=pix.copy(), vertices=pvx.copy()),
+                        lambda: ArrayTriangles(indices=oix.copy(), vertices=ovx.copy()), pvx[pix], tol, False)
+        v.nontrivial = True
+        v.outcome = "hist:N%d" % len(ptr)
     else:
         raise ValueError("unknown case kind %r" % (kind,))
     return v.result()
